@@ -4,13 +4,13 @@
  * spawn and output stand-ins of harness/common/echsd_env.h.
  * Two tasks A and B with symbolic limits; a symbolic schedule of NEV events:
  *   0/1  an occurrence of A/B falls due (the periodic watcher's callback runs)
- *   2..3 the supervised child in watcher slot k-2 exits (4..5 unused)
+ *   2..5 the supervised child in watcher slot k-2 exits
  *   6/7  an unsupervised but really running execution of A/B exits
  * Ground truth kept here: an execution is RUNNING from a spawn without --no-run
  * until its exit event, whether or not the daemon supervises it. */
 #define ECHS_TASK_POOL_INIZ	(2U)
-#define ECHS_CHLD_POOL_INIZ	(1U)
-#define ENV_MAXC 2
+#define ECHS_CHLD_POOL_INIZ	(4U)	/* one allocation for the whole run: pool growth means malloc() of a symbolic size */
+#define ENV_MAXC 4
 #define ENV_MAXP 2
 #include "echsd_env.h"
 
@@ -64,6 +64,7 @@ static void due(struct _task_s *w, int which, long long limit)
 void harness(void)
 {
 	sym_load();
+	ENV_INIT();
 	/* N in 1..62, or 63 = unset = unlimited (what make_task() leaves in the field) */
 	ASSUME(in.na >= 1 && in.na <= 63 && in.nb >= 1 && in.nb <= 63);
 #if defined NMAX
@@ -80,13 +81,17 @@ void harness(void)
 	for (unsigned i = 0; i < NEV; i++) {
 		const long long e = in.ev[i];
 		ASSUME(e >= 0 && e <= 7);
+#if defined ONETASK
+		/* single-task variant: only task A's events */
+		ASSUME(e == 0 || (e >= 2 && e <= 5) || e == 6);
+#endif
 		/* one call site per kind of event keeps the formula small: the task / the
 		 * child slot is selected symbolically */
 		const int which = (e == 0 || e == 6) ? 1 : 2;
 		if (e <= 1) {
 			due(e == 0 ? &WA : &WB, e == 0 ? 1 : 2, e == 0 ? la : lb);
 		} else if (e <= 5) {
-			const unsigned k = ((unsigned)e - 2U) % ENV_MAXC;
+			const unsigned k = (unsigned)e - 2U;
 			const int wk = env_chl[k] != NULL ? sup_task[k] : 0;
 			if (env_child_exit(k) && wk) {
 				run_sup[wk]--;
